@@ -357,7 +357,7 @@ pub fn small_stream(i: u64) -> StreamCase {
 
 pub fn run(ctx: &Ctx) {
     ctx.rule(
-        "fault enumeration on small emitted streams (8 crafted streams in quick, + generated ones in thorough; mono/stereo, all subframe kinds, 1..=4 frames): at EVERY byte position every single-bit flip and every burst of length 2..=8 (first and last bit flipped, all interior patterns) at every bit offset, and truncation at every byte; \
+        "fault enumeration on small emitted streams (8 crafted streams in quick, + generated ones in thorough; mono/stereo, all subframe kinds, 1..=4 frames; plus the head and the last six frames of a 130-frame stream, whose frame numbers need two bytes): at EVERY byte position every single-bit flip and every burst of length 2..=8 (first and last bit flipped, all interior patterns) at every bit offset, and truncation at every byte; \
          oracle: catch_unwind(parser::stream) never unwinds; if the mutant is accepted its frames decode without panic and, when all altered bits lie inside one frame, to the original audio; \
          second part (panic oracle only): random byte strings and structure-aware mutations of frames with CRC-8/CRC-16 recomputed so that the code behind the checksums is reached; \
          evaluations = number of mutants parsed; non-trivial = alteration inside a frame that leaves the sync code intact; distinct by (stream, byte position)",
@@ -387,6 +387,16 @@ pub fn run(ctx: &Ctx) {
             }
             o
         });
+    }
+    // a stream of 130 small frames: multi-byte frame numbers (>= 128) in the last frames, so that
+    // truncations and bursts hit the number's continuation bytes
+    if let Some(sc) = super::common::many_frames_cases(false).into_iter().find(|c| c.inp.len / c.cfg.block_size >= 129 && c.inp.bps == 8 && c.entry == Entry::Single) {
+        if let Some(base) = base_of(&sc) {
+            let n = base.bytes.len() as u64;
+            // the first frames are all alike: enumerate the STREAMINFO, the first two and the last six frames
+            let keep: Vec<u64> = (0..n).filter(|i| (*i as usize) < base.frames[2.min(base.frames.len() - 1)].0 || (*i as usize) >= base.frames[base.frames.len().saturating_sub(6)].0).collect();
+            ctx.enumerate("bursts-stream-many-frames", 16, keep.len() as u64, |i| ByteCase { base: sc.clone(), byte: keep[i as usize] as usize, only: None }, check_byte);
+        }
     }
     let per = ctx.tier.scale(60000, 8);
     ctx.search("random-bytes", 16, per, &|| (any::<u64>(), 0usize..400).prop_map(|(seed, len)| BlobCase { base: None, seed, muts: 0, fix_crc: false, len }), check_blob);
